@@ -335,6 +335,9 @@ def _root_.DepLogic.Atom.exactView (a : Atom) : Bool :=
   else if !versionLikeNames.contains a.name then true
   -- the `fix:` for D35: the operand of a comparison is one version, not a specifier expression
   else if a.op != .in_ && a.op != .notIn && (a.value.toList.contains ',' || a.value.toList.contains '|') then false
+  -- the `fix:` for D40: `<` + `empty>` spells the `<empty>` keyword (D39's `==` + `=V` = `===V` has no specifier view in
+  -- the model at all: `getSpecifier` is `none`)
+  else if a.op == .lt && a.value.toList == ['e', 'm', 'p', 't', 'y', '>'] then false
   else if !a.reversed then true
   -- the `fix:` for D26: `"lit" in name` tests the literal against the value as a substring
   else if a.op == .in_ || a.op == .notIn then false
